@@ -66,7 +66,9 @@ var ReqFactors = []string{"method", "proto", "host", "upgrade", "connection", "v
 // ReqVariants lists the variants of each factor; the first is canonical.
 var ReqVariants = map[string][]string{
 	"method":     {"GET", "get", "POST", "HEAD", "PUT", "OPTIONS", "GETT"},
-	"proto":      {"HTTP/1.1", "HTTP/1.0", "HTTP/1.2", "HTTP/1.9", "HTTP/1.10", "HTTP/2.0", "HTTP/0.9", "HTTP/1.:", "HTTP/1.;", "HTTP/1.1x", "HTTP/1.18446744073709551617", "missing", "HTTP/1.01", "http/1.1", "HTTP/1.", "HTTP/.1", "HTTP/11"},
+	"proto":      {"HTTP/1.1", "HTTP/1.0", "HTTP/1.2", "HTTP/1.9", "HTTP/1.10", "HTTP/2.0", "HTTP/0.9", "HTTP/1.:", "HTTP/1.;", "HTTP/1.1x", "HTTP/1.18446744073709551617", "missing", "HTTP/1.01", "http/1.1", "HTTP/1.", "HTTP/.1", "HTTP/11",
+		// number spellings that a general-purpose integer parser takes but an HTTP version does not have
+		"HTTP/1.+1", "HTTP/+1.1", "HTTP/1.-1", "HTTP/-1.1", "HTTP/1.1e0", "HTTP/0x1.1", "HTTP/1_0.1", "HTTP/1.١"},
 	"host":       {"canonical", "absent", "case-name", "blanks", "empty", "dup-same", "with-port"},
 	"upgrade":    {"canonical", "absent", "case-name", "case-value", "blanks", "wrong", "empty", "dup-same", "dup-diff", "token-list", "prefix", "suffix"},
 	"connection": {"canonical", "absent", "case-name", "case-value", "blanks", "wrong", "empty", "dup-same", "dup-diff", "list-first", "list-middle", "list-last", "list-nospace", "substring", "list-tab"},
@@ -135,7 +137,7 @@ func BuildReq(rng *rand.Rand, choice map[string]string, protoHdrs, extHdrs []str
 	case "HTTP/1.0", "HTTP/2.0", "HTTP/0.9":
 		r.Proto = p
 		v.Reject("version "+p, 505)
-	case "HTTP/1.:", "HTTP/1.;", "HTTP/1.1x", "HTTP/1.", "HTTP/.1", "HTTP/11":
+	case "HTTP/1.:", "HTTP/1.;", "HTTP/1.1x", "HTTP/1.", "HTTP/.1", "HTTP/11", "HTTP/1.+1", "HTTP/+1.1", "HTTP/1.-1", "HTTP/-1.1", "HTTP/1.1e0", "HTTP/0x1.1", "HTTP/1_0.1", "HTTP/1.١":
 		r.Proto = p
 		v.Reject("version token "+p, 505, 400)
 		v.NoResponseOK = true
